@@ -300,6 +300,30 @@ def run(ck):
     for c, tag, _ in cases[len(corpus):len(corpus) + 3]:
         ck.sample(dict(tag=tag, p_a_b_c=[list(v) for v in c]))
     evaluate(ck, cases, impl, model)
+    # ---- how the result is consumed: the squared distance gates every repulsion decision of the default contact model.  Probes
+    # (a tiny tetrahedron at a chosen signed distance from a face of a large cell; all class pairs; the two cut-offs equal or
+    # different) must get a force exactly when the distance the kernel returns is inside the larger cut-off, and none beyond
+    try:
+        import importlib
+        c07 = importlib.import_module("checks.c07"); cc = importlib.import_module("contact_common")
+        prng = random.Random(ck.seed * 131 + 5)
+        probes = [c07.gen_probe(prng, asymmetric=a) for a in (["adhesion_smaller", "repulsion_smaller", "equal"] * (8 if ck.tier == "quick" else 120))]
+        pouts, _cr = cc.run_cases(probes, contact=1, san=False)
+        nprobe = 0
+        for pc, o in zip(probes, pouts):
+            if o is None or o.startswith("FATAL"):
+                continue
+            sec = o.split(" # ")
+            f = c07.oracle(pc, cc.parse_in(sec[1]), cc.parse_state(sec[3]))
+            nprobe += 1
+            if f and f.split(" ")[0] in ("no_force_beyond_cutoff", "overlap_is_pushed_apart", "force_on_the_node_points_toward_the_surface"):
+                ck.report(dict(input=cc.case_line(pc), probe=pc["probe"], cut_adh=pc["cut_adh"], cut_rep=pc["cut_rep"]), oracle="kernel_distance_gates_the_contact_decision", key="kernel:gates:" + f.split(" ")[0],
+                          what="the contact model does not act on the kernel's distance as the rules say: " + f)
+                break
+        ck.cov["evaluations"] += nprobe
+        ck.notes["contact_probes_consuming_the_kernel"] = nprobe
+    except vlib.BuildError as e:
+        ck.notes["contact_probes_consuming_the_kernel"] = "driver build failed: " + str(e)[-200:]
     ck.cov["trusted_base"] = vlib.TRUSTED_BASE_COMMON + ["exact rational oracle in Python (fractions)"]
     ck.assumptions = ["triangle non-degenerate (Gram determinant > 0); real arithmetic in the theorems, binary64 in the correspondence",
                       "oracle judges only triangles with Gram determinant > 1e-6 |ab|^2|ac|^2 (conditioning)"]
